@@ -24,17 +24,17 @@ type C15Perm struct {
 
 type C15Case struct {
 	// cookies
-	CookieA    string `json:"cookie_a"`    // node cookie of the dialling node
-	CookieB    string `json:"cookie_b"`    // node cookie of the accepting node
-	AcceptorB  string `json:"acceptor_b"`  // acceptor's own cookie ("" = none)
-	RouteA     string `json:"route_a"`     // cookie of A's static route to B ("" = none)
-	MaxA, MaxB int    `json:"-"`
-	MaxSizeA   int    `json:"max_size_a"`
-	MaxSizeB   int    `json:"max_size_b"`
-	NoSpawnB   bool   `json:"no_spawn_b"` // B's flags forbid remote spawn
-	ExposeA    bool   `json:"expose_a"`   // A exposes its env on remote spawn / application start
-	Pool       int    `json:"pool"`
-	Adversary  string `json:"adversary"` // "" | silence | garbage | truncated | hugelen | replay-hello | replay-join
+	CookieA    string    `json:"cookie_a"`   // node cookie of the dialling node
+	CookieB    string    `json:"cookie_b"`   // node cookie of the accepting node
+	AcceptorB  string    `json:"acceptor_b"` // acceptor's own cookie ("" = none)
+	RouteA     string    `json:"route_a"`    // cookie of A's static route to B ("" = none)
+	MaxA, MaxB int       `json:"-"`
+	MaxSizeA   int       `json:"max_size_a"`
+	MaxSizeB   int       `json:"max_size_b"`
+	NoSpawnB   bool      `json:"no_spawn_b"` // B's flags forbid remote spawn
+	ExposeA    bool      `json:"expose_a"`   // A exposes its env on remote spawn / application start
+	Pool       int       `json:"pool"`
+	Adversary  string    `json:"adversary"` // "" | silence | garbage | truncated | hugelen | replay-hello | replay-join
 	Perms      []C15Perm `json:"perms"`
 }
 
@@ -111,8 +111,8 @@ func (c15) Sched(r *simkit.Rand, c any) simkit.SchedSpec {
 type c15App struct{ spec gen.ApplicationSpec }
 
 func (a *c15App) Load(node gen.Node, args ...any) (gen.ApplicationSpec, error) { return a.spec, nil }
-func (a *c15App) Start(mode gen.ApplicationMode)                                 {}
-func (a *c15App) Terminate(reason error)                                         {}
+func (a *c15App) Start(mode gen.ApplicationMode)                               {}
+func (a *c15App) Terminate(reason error)                                       {}
 
 func nodesOf(s string) []gen.Atom {
 	var out []gen.Atom
